@@ -18,6 +18,9 @@ package main
 //   fuzzing-mode       library runs with fuzzing=true (request flag z): millions of statements below the loop guard's limit with
 //                      every statement kind at every position of the count, loops around and beyond the limit (implementation only)
 //   binary-error-paths the real binary: every error kind x every flag combination (-o modes, -f, -r, stdin / files)
+//   binary-line-endings  the real binary on program (-f, inline) and -r selector texts with LF / CR LF / CR / mixed line
+//                      endings, with and without a final one, the error at end of input / at a newline token / at the last
+//                      byte / a runtime error on the last token of the line, non-ASCII text before the error column
 //
 // Every case compares class,out with the model; the oracle flags any class
 // outside ok/syntax/runtime/json by itself (core.go flags timeouts/crashes).
@@ -2789,4 +2792,300 @@ func init() {
 	register(Family{Name: "binary-error-paths", Prop: "C01",
 		Rule: "the real binary (request kind cli): every error kind -- 13 syntax errors in the program (lexer, parser, static checks, after valid rules), syntax and runtime errors in a -r selector (alone, second of two), runtime errors in BEGIN / BEGINFILE / rule pattern / rule body (first and second record) / function / match body / ENDFILE / END / call depth, JSON input errors (truncated, stray bracket, bad byte, after good values, number out of range, nested too deep), missing input file, directory as input, -f naming a missing file / a directory / an empty file, inputs without a value, and programs without an error -- x every flag combination: no -o, -o -, -o=-, -o FILE, -o into a missing directory, -o onto a directory, -o into a sub-directory, program inline / through -f, with and without -r, the input under test on stdin / as the only file / first / last / middle of several files; plus random combinations. Oracle (C01): exit status 0, or 1 with a diagnostic on stderr; stderr never holds `goroutine`, `panic:` or `fatal error`; an error that is certain by construction gives status 1, a syntax error / an input that cannot be opened leaves stdout empty and writes no -o file. Compared with the model on exit, stdout, diagnostic flag, -o file content and existence. Non-trivial = stdout, stderr or an -o file.",
 		Gen:  c01GenBinErrors})
+}
+
+// ---------------------------------------------------------------------------
+// family 11: program and selector texts with CR LF / CR / mixed line endings through the real binary
+//
+// cli.printError prints the offending source line and a caret under the error column; the line
+// and the column come from the lexer, which knows only '\n' as a line break, so the '\r' of a
+// CR LF pair is the last byte of the source line, an error at the newline token has the column
+// len(line), and CR-only text is ONE line. Anything the diagnostic code does with (line, column)
+// -- slicing, trimming, counting characters -- has to survive every such pair. Texts: valid lines
+// (some with non-ASCII text, tabs, comments) followed by a line that ends in an error of each
+// position class (detected at end of input, at a newline token, at the first token of the next
+// line, at the last byte of the line, a runtime error whose position is the last token of the
+// line), under every line-ending style, with and without a final line ending, given through -f,
+// inline, and as a -r selector.
+
+type c01EolErr struct {
+	class string   // where the error sits
+	lines []string // the lines that hold the error (S = a string literal slot); the error is in the first one
+	atEOF bool     // nothing may follow: the error is the end of the text
+}
+
+var c01EolProgErrs = []c01EolErr{
+	{"eof", []string{`BEGIN { print S`}, true},
+	{"eof", []string{`{ n += $.size; print S, n`}, true},
+	{"eof", []string{`{ x = S +`}, true},
+	{"eof", []string{`function f(a) { return S`}, true},
+	{"eof", []string{`{ x = match ($) { 1 => S`}, true},
+	{"eof", []string{`{ print [S, 2`}, true},
+	{"eof", []string{`{ print (S`}, true},
+	{"eof", []string{`END { print S } {`}, true},
+	{"eof", []string{`{`}, true},
+	{"newline", []string{`{ x = S; a.`, `b }`}, false},
+	{"newline", []string{`{ print S; x = 1 +`, `}`}, false},
+	{"newline", []string{`function`, `f() { return S }`}, false},
+	{"newline", []string{`{ print S; for (i = 0`, `i < 2; i++) print i }`}, false},
+	{"newline", []string{`{ print S; $.`, `}`}, false},
+	{"newline", []string{`BEGIN { print S,`, `}`}, false},
+	{"newline", []string{`{ x = S; x[`, `0] = 1 }`}, false},
+	{"newline", []string{`{ y = f(S,`, `) }`}, false},
+	{"last-byte", []string{`BEGIN { print S @`}, false},
+	{"last-byte", []string{`BEGIN { print S; y = "abc`}, false},
+	{"last-byte", []string{`BEGIN { print S; y = 'abc`}, false},
+	{"last-byte", []string{`{ print S; y = $ ~ /ab`}, false},
+	{"last-byte", []string{`{ print S } }`}, false},
+	{"last-byte", []string{`BEGIN { print S; break`, `}`}, false},
+	{"last-byte", []string{`BEGIN { print S; return`, `}`}, false},
+	{"last-byte", []string{`BEGIN { print S; 1 = 2`, `}`}, false},
+	{"last-byte", []string{`@`}, false},
+	{"runtime-last-token", []string{`BEGIN { print S; x = $nosuch`, `}`}, false},
+	{"runtime-last-token", []string{`BEGIN { print S; x = nosuch()`, `}`}, false},
+	{"runtime-last-token", []string{`BEGIN { print S; x = 1 / 0`, `}`}, false},
+	{"runtime-last-token", []string{`BEGIN { print S; x = S.nosuch()`, `}`}, false},
+	{"runtime-last-token", []string{`BEGIN { print S; printf("%s")`, `}`}, false},
+	{"runtime-last-token", []string{`BEGIN { print S; x = 7 % 0.5`, `}`}, false},
+	{"runtime-last-token", []string{`{ print S; x = $.a.b.c()`, `}`}, false},
+	{"runtime-last-token", []string{`BEGIN { print S; x = [] < []`, `}`}, false},
+	{"runtime-last-token", []string{`BEGIN { print S; x = S ~ "("`, `}`}, false},
+	{"runtime-last-token", []string{`BEGIN { print S; x = -S`, `}`}, false},
+	{"runtime-last-token", []string{`{ print S; $nosuch = 1`, `}`}, false},
+	{"runtime-last-token", []string{`{ print S; x = 5; x++; x = x.k.j`, `}`}, false},
+	{"none", []string{`BEGIN { print S }`}, false},
+	{"none", []string{`{ print S, $.size`, `}`}, false},
+}
+
+var c01EolSelErrs = []c01EolErr{
+	{"eof", []string{`$.a +`}, true},
+	{"eof", []string{`[$, S`}, true},
+	{"eof", []string{`($`}, true},
+	{"eof", []string{`{k: S`}, true},
+	{"eof", []string{`match ($) { 1 => S`}, true},
+	{"newline", []string{`$.`, `a`}, false},
+	{"newline", []string{`[S,`, `]`}, false},
+	{"newline", []string{`$ +`, `+`}, false},
+	{"last-byte", []string{`S @`}, false},
+	{"last-byte", []string{`S + "abc`}, false},
+	{"last-byte", []string{`$ ~ /ab`}, false},
+	{"last-byte", []string{`[S] ]`}, false},
+	{"runtime-last-token", []string{`$nosuch`}, false},
+	{"runtime-last-token", []string{`S + $nosuch`}, false},
+	{"runtime-last-token", []string{`[S, 1 / 0`, `]`}, false},
+	{"runtime-last-token", []string{`[S, $.a.b.c()`, `]`}, false},
+	{"runtime-last-token", []string{`[S, nosuch()`, `]`}, false},
+	{"runtime-last-token", []string{`S ~ "("`}, false},
+	{"none", []string{`[$, S]`}, false},
+	{"none", []string{`[$,`, `S`, `]`}, false},
+}
+
+var c01EolGoodLines = []string{
+	`BEGIN { n = 0 }`, `# a comment: é 日本 →`, `BEGIN { s = "héllo wörld" }`, `{ n += 1 }`, ``, `function g(a) { return a + 1 }`,
+	"\tBEGIN { t = 'x' }", `BEGIN { print "start" }   # trailing comment`, `   `, `$.size > 0 { n += $.size }`,
+}
+
+// the line-ending styles: what follows each line (rotating when there are several)
+var c01EolStyles = []struct {
+	name string
+	eols []string
+}{
+	{"LF", []string{"\n"}}, {"CRLF", []string{"\r\n"}}, {"CR", []string{"\r"}}, {"mixed CRLF/LF", []string{"\r\n", "\n"}}, {"mixed LF/CR/CRLF", []string{"\n", "\r", "\r\n"}},
+	{"CR CR LF", []string{"\r\r\n"}}, {"LF CR", []string{"\n\r"}}, {"blank CRLF", []string{" \r\n"}},
+}
+
+// what follows the LAST line
+var c01EolFinals = []string{"", "=", "\r", "==", "\n"}
+
+func c01EolText(lines []string, eols []string, final string, rot int) string {
+	var sb strings.Builder
+	for i, l := range lines {
+		sb.WriteString(l)
+		e := eols[(i+rot)%len(eols)]
+		if i == len(lines)-1 {
+			switch final {
+			case "":
+				e = ""
+			case "=":
+			case "==":
+				e += e
+			default:
+				e = final
+			}
+		}
+		sb.WriteString(e)
+	}
+	return sb.String()
+}
+
+func c01EolOracle(i Resp) string {
+	switch i["class"] {
+	case "nobinary", "badrequest", "crash", "garbled":
+		return "harness problem running the binary: " + i.String()
+	}
+	stderr := string(i.Bytes("stderr"))
+	for _, mark := range []string{"goroutine ", "panic:", "fatal error", "runtime error: invalid memory", "runtime error: slice", "runtime error: index", "SIGSEGV"} {
+		if strings.Contains(stderr, mark) {
+			return "C01: the binary ended in a Go panic / stack trace (exit status " + i["exit"] + "): " + short(stderr)
+		}
+	}
+	if i["exit"] != "0" && i["exit"] != "1" {
+		return "C01: exit status " + i["exit"] + " (expected 0, or 1 with a diagnostic): " + short(stderr)
+	}
+	if i["exit"] == "1" && i["errlen"] == "0" {
+		return "C01: exit status 1 without a diagnostic on stderr"
+	}
+	return ""
+}
+
+// c01EolTie: the binary (self) against the library run of the same text (first): same outcome, and
+// the diagnostic names the error kind and the line the library reports.
+func c01EolTie(first, self Resp) string {
+	if self["exit"] == "" || first["class"] == "" {
+		return ""
+	}
+	stderr := string(self.Bytes("stderr"))
+	switch first["class"] {
+	case "ok":
+		if self["exit"] != "0" {
+			return "the library runs the text without an error, the binary ends with status " + self["exit"] + ": " + short(stderr)
+		}
+	case "syntax", "runtime":
+		if self["exit"] != "1" {
+			return fmt.Sprintf("the library reports a %s error, the binary ends with status %s: %s", first["class"], self["exit"], short(stderr))
+		}
+		want := fmt.Sprintf("%s error on line %s:", first["class"], first["line"])
+		if !strings.Contains(stderr, want) {
+			return fmt.Sprintf("the diagnostic does not say %q: %s", want, short(strconv.Quote(stderr)))
+		}
+	default:
+		return ""
+	}
+	if self["out"] != first["out"] {
+		return fmt.Sprintf("stdout of the binary %q differs from the library's %q", self.Bytes("out"), first.Bytes("out"))
+	}
+	return ""
+}
+
+func c01GenEolTexts(r *rand.Rand, tier string, emit func(Case)) {
+	if os.Getenv("JQAWK_BIN") == "" {
+		emit(Case{ID: "no-binary", Req: "cli - - - -", ImplOnly: true,
+			Oracle: func(Resp) string { return "env JQAWK_BIN is not set: the binary was not run" },
+			Meta:   map[string]string{"problem": "env JQAWK_BIN is not set; this family runs the real binary"}})
+		return
+	}
+	input := []byte("[{\"size\": 3, \"a\": 5}, {\"size\": 4}]\n")
+	lits := []string{`"abc"`, `"héllo→日本"`, `'ß🙂'`, `"a\tb"`}
+	libFields := []string{"class", "out", "line", "col", "src"}
+	thorough := tier == "thorough"
+	n := 0
+	one := func(sel bool, e c01EolErr, lit string, style int, final string, nGood int, suffix bool, via string) {
+		n++
+		st := c01EolStyles[style]
+		var lines []string
+		if !sel {
+			for k := 0; k < nGood; k++ {
+				lines = append(lines, c01EolGoodLines[(n+k*3)%len(c01EolGoodLines)])
+			}
+		}
+		for _, l := range e.lines {
+			lines = append(lines, strings.ReplaceAll(l, "S", lit))
+		}
+		if suffix && !e.atEOF && !sel {
+			lines = append(lines, c01EolGoodLines[(n+1)%len(c01EolGoodLines)], `END { print "end", n }`)
+		}
+		text := c01EolText(lines, st.eols, final, n)
+		prog, sels := text, []string(nil)
+		if sel {
+			prog, sels = "BEGIN { print \"b\" }\n{ print $ }", []string{text}
+		}
+		g := fmt.Sprintf("eol-%d", n)
+		what := map[bool]string{false: "program", true: "selector"}[sel]
+		meta := func(variant string) map[string]string {
+			return metaProg(prog, "text under test", what+" "+strconv.Quote(text), "line endings", st.name, "after the last line", strconv.Quote(final), "error position class", e.class,
+				"variant", variant, "row", what+": "+e.class, "col", st.name+" final "+strconv.Quote(final))
+		}
+		emit(Case{ID: g + "/lib", Req: RunReq(prog, sels, []File{{Name: "in.json", Data: input}}, false), Fields: libFields, Group: g, Meta: meta("library run (reference of the group)"),
+			NonTrivial: func(i Resp) bool { return i["class"] == "syntax" || i["class"] == "runtime" || i["out"] != "-" },
+			Oracle: func(i Resp) string {
+				switch i["class"] {
+				case "ok", "syntax", "runtime":
+					return ""
+				}
+				return "C01: outcome class " + i["class"] + " (" + i["msg"] + ")"
+			}})
+		disk := []CliFile{{Name: "in.json", Data: input}}
+		var argv []string
+		for _, s := range sels {
+			if n%2 == 0 {
+				argv = append(argv, "-r="+s)
+			} else {
+				argv = append(argv, "-r", s)
+			}
+		}
+		vias := []string{via}
+		if via == "both" {
+			vias = []string{"-f", "inline"}
+		}
+		for _, v := range vias {
+			av := append([]string{}, argv...)
+			dk := disk
+			if v == "-f" {
+				av = append(av, "-f", "prog.jqawk", "in.json")
+				dk = append(append([]CliFile{}, disk...), CliFile{Name: "prog.jqawk", Data: []byte(prog)})
+			} else {
+				if strings.HasPrefix(prog, "-") {
+					av = append(av, "--")
+				}
+				av = append(av, prog, "in.json")
+			}
+			emit(Case{ID: g + "/" + v, Req: CliReq(av, nil, false, dk, ""), Fields: c14CliFields, Group: g, GroupCheck: c01EolTie, Oracle: c01EolOracle, NonTrivial: c14NT,
+				Meta: meta("the binary, " + v + ": " + strings.Join(av, " ␣ "))})
+		}
+	}
+	for _, sel := range []bool{false, true} {
+		errs := c01EolProgErrs
+		if sel {
+			errs = c01EolSelErrs
+		}
+		for ei, e := range errs {
+			for li, lit := range lits {
+				if !thorough && li >= 2 && (ei+li)%3 != 0 {
+					continue
+				}
+				for si := range c01EolStyles {
+					finals := c01EolFinals
+					if !thorough {
+						// the style's own ending, nothing, and one rotating other
+						finals = []string{"=", "", c01EolFinals[2+(ei+li+si)%3]}
+						if li >= 1 {
+							finals = finals[(ei+si)%3 : (ei+si)%3+1]
+						}
+					}
+					for fi, final := range finals {
+						via := []string{"-f", "inline"}[(ei+li+si+fi)%2]
+						if thorough || (final == "=" && li == 0) {
+							via = "both"
+						}
+						one(sel, e, lit, si, final, (ei+si+fi)%3, (ei+si)%2 == 0, via)
+					}
+				}
+			}
+		}
+	}
+	// random combinations
+	for k := tierN(tier, 150, 3000); k > 0; k-- {
+		sel := chance(r, 0.3)
+		errs := c01EolProgErrs
+		if sel {
+			errs = c01EolSelErrs
+		}
+		one(sel, pick(r, errs), pick(r, lits), r.Intn(len(c01EolStyles)), pick(r, c01EolFinals), r.Intn(4), chance(r, 0.5), pick(r, []string{"-f", "inline"}))
+	}
+}
+
+func init() {
+	register(Family{Name: "binary-line-endings", Prop: "C01",
+		Rule: "the real binary on program texts (-f FILE and inline) and -r selector texts with LF, CR LF, CR-only, mixed, CR CR LF, LF CR and blank+CR LF line endings, with no final line ending / the style's own / a lone CR / a doubled one / LF: 0-3 valid lines (non-ASCII strings and comments, tabs, blank lines) followed by a line ending in an error of each position class -- detected at end of input (9 shapes), at a newline token or the first token of the next line (8), at the last byte of the line (9: illegal character, unterminated string / regex, stray brace, break / return / assignment rejected by the static checks), a runtime error whose position is the last token of the line (12) -- or no error, each with an ASCII and a non-ASCII string literal before the error column; 20 selector shapes likewise. One Group per text: the library run (class, out, line, col, src compared with the model) and the binary (exit, stdout, diagnostic flag compared with the model of the wrapper). Oracle (C01): exit status 0, or 1 with a diagnostic, never 2; no `goroutine` / `panic:` / `runtime error: slice` on stderr; the binary fails exactly when the library does, with the same stdout, and its diagnostic says `<kind> error on line <the library's line>:`. Non-trivial = an error diagnostic or output.",
+		Gen:  c01GenEolTexts})
 }
